@@ -50,8 +50,7 @@ class Gen:
         c = ""
         if self.with_comments and self.l.random() < 0.3:
             t = self.l.choice([" c", "x y", " if then", " 'q", ' "d', " $(", " é", " a\\", " #", ""])
-            if t != "":
-                self.comments.append(t)
+            self.comments.append(t)
             c = self.l.choice([" #", "\t#"]) + t
         s = c + "\n" + "".join(self.pending)
         self.pending = []
